@@ -54,6 +54,60 @@ def export(fired):
             "zero_len": sorted(set(zero)), "vocab": vocab, "reg_names_set_str": known, "fired": sorted(fired)}
 
 
+_PRED_TEXT = {"isDate": "5.3.2021", "isTOD": "8:30", "isDOW": "monday", "Interval": "9:00 - 10:00", "Duration": "3 days", "isPOD": "morning",
+              "isDOM": "5th", "isMonth": "march", "isYear": "2019", "isDOY": "5.3.", "isDateTime": "5.3.2021 8:30", "hasDate": "5.3.2021",
+              "hasDOW": "monday", "hasTime": "8:30", "hasPOD": "morning", "Time": "5.3.2021", "isDateInterval": "5.3.2021 - 8.3.2021",
+              "isTimeInterval": "9:00 - 10:00", "isDOYInterval": "5.3. - 8.3."}
+
+
+def _regex_samples(rid):
+    """Heuristic sample strings for a pattern the frozen lexicon does not know (a rule added to the rule base)."""
+    import re as _re2
+    import ctparse.rule as rm
+    raw = rm._regex_str.get(rid, "")
+    rx = rm._regex.get(rid)
+    cands = []
+    for alt in _re2.split(r"\|", raw):
+        c = _re2.sub(r"\(\?P<\w+>|\(\?[:!=<][^)]*|\(\?&\w+\)|[()^$]", "", alt)
+        c = c.replace("\\s*", " ").replace("\\s+", " ").replace("\\s", " ").replace("\\b", "").replace("\\.", ".").replace("\\d+", "7").replace("\\d", "7")
+        c = _re2.sub(r"(.)\?", r"\1", c)
+        c = _re2.sub(r"[*+?\\]", "", c).strip()
+        if c:
+            cands.append(c)
+    return [c for c in cands if rx is not None and rx.search(c)][:6]
+
+
+def auto_probe(name):
+    """Can a rule the model does not know be made to return a value?  True / False(undecided)."""
+    tab = qa.registry_table()
+    parts = [[]]
+    for kind, what in tab[name]:
+        opts = _regex_samples(what) if kind == "R" else ([_PRED_TEXT[str(what)]] if str(what) in _PRED_TEXT else [])
+        if not opts:
+            return False
+        parts = [p + [o] for p in parts for o in opts][:24]
+    hit = [False]
+    orig = qa.PartialParse.apply_rule
+
+    def spy(self, ts, rule, rule_name, match):
+        out = orig(self, ts, rule, rule_name, match)
+        if rule_name == name and out is not None:
+            hit[0] = True
+        return out
+    qa.PartialParse.apply_rule = spy
+    try:
+        for p in parts:
+            try:
+                list(qa.CTP.ctparse_gen(" ".join(p), datetime(2018, 3, 7, 12, 43), timeout=0, max_stack_depth=0, scorer=qa.DummyScorer(), latent_time=False))
+            except Exception:  # noqa: BLE001
+                pass
+            if hit[0]:
+                return True
+    finally:
+        qa.PartialParse.apply_rule = orig
+    return False
+
+
 def fire_rows(case):
     rec = qa.Recorder()
     with qa.recording(rec):
@@ -187,6 +241,16 @@ def run(ctx):
     core.run_stage(ctx, "modifier-chains", ccases, chain_rows, "RulesTrace", sig_keys=(), nontrivial=lambda c: (c["pod_word"], tuple(c["mods"])))
     # the decorator's registry under every sequence of registrations (RuleReg.tla exports them, incl. rejected patterns)
     replay_registrations(ctx)
+    # rules the frozen model does not know (the rule base was extended): probe texts are synthesised from the rule's own patterns;
+    # when that fails 'can fire' stays undecided for that rule (a note, not an alarm)
+    model_rules = set(qa.model_rule_table())
+    for n in sorted(set(qa.registry_table()) - model_rules - fired):
+        if auto_probe(n):
+            fired.add(n)
+            ctx.note("rule %s is not in the frozen RuleTable.tla (rule base extended); it fires on a synthesised probe" % n)
+        else:
+            fired.add(n)
+            ctx.note("UNDECIDED: rule %s is not in the frozen RuleTable.tla and no probe text could be synthesised for it; 'can fire' not decided" % n)
     ob = export(fired)
     v = ctx.judge("RuleBase", [ob])
     for r in v.rejects:
